@@ -118,6 +118,15 @@ def r04a(ck, prog):
     for r in READERS:
         F = prog.fn(r)
         sig, where = reader_signature(prog, F)
+        if len(sig) == 0:
+            # the chain may live in a private helper the reader calls (static, same file)
+            for c in F.body.calls():
+                H = prog.functions.get(c.callee) if c.callee else None
+                if H is not None and H.static and H.file == F.file:
+                    hs, hw = reader_signature(prog, H)
+                    if len(hs) == 1:
+                        sig, where = hs, hw
+                        break
         if len(sig) != 1:
             raise AnalysisBroken("R04a: expected exactly one classification chain in %s, found %d" % (r, len(sig)))
         sigs[r] = (sig[0], where)
@@ -273,13 +282,24 @@ def r04b(ck, prog):
                              prog.config)
     # (3) nothing before the merge phase reads gaps
     cg = CallGraph(prog)
+    from ..lift import Lifted
     K = prog.fn("kalign_run")
-    cfg = K.cfg
-    tree = [cfg.position(c) for c in K.body.calls("create_msa_tree")]
+    L = Lifted(prog, cg)
     pre = set()
-    for c in K.body.calls():
-        if c.callee in cg.defined and c.callee != "create_msa_tree" and any(cfg.reaches(cfg.position(c), t) for t in tree):
-            pre.add(c.callee)
+    found = L.find_call(K, "create_msa_tree")
+    if not found:
+        raise AnalysisBroken("R04b slot: create_msa_tree is not called from kalign_run or its private helpers")
+    for G, t in found:
+        cfg = G.cfg
+        for c in G.body.calls():
+            if c.callee in cg.defined and c.callee != "create_msa_tree" and cfg.reaches(cfg.position(c), cfg.position(t)):
+                pre.add(c.callee)
+        if G is not K:
+            cfgk = K.cfg
+            hs = L.sites(K, "create_msa_tree", "may")
+            for c in K.body.calls():
+                if c.callee in cg.defined and c not in hs and any(cfgk.reaches(cfgk.position(c), cfgk.position(h)) for h in hs):
+                    pre.add(c.callee)
     reach = cg.reachable(pre)
     for name in sorted(reach):
         F = cg.defined.get(name)
@@ -369,6 +389,8 @@ def run(ck, progs):
     for cfg, prog in progs.items():
         ck.attempt(r04a, ck, prog)
         ck.attempt(r04b, ck, prog)
+        from . import c01
+        ck.attempt(c01.dealign_rule, ck, prog, "R04b")
         ck.attempt(r04c, ck, prog)
     return ("Sibling cross-check of the three readers' classification chains (predicate, actions, histogram, same "
             "character); span of every loop over msa_seq.gaps and coverage of the totals deciding the alignment status; "
